@@ -163,3 +163,26 @@ Fixpoint render_row (fs : list colfmt) (vs : list text) : text :=
     render_col f v ++ (match vs' with [] => [] | _ => comma :: render_row fs' vs' end)
   | _, _ => []
   end.
+
+(* ------------------------------------------------------------------ *)
+(* wider value classes: a value written in double quotes keeps its inner text
+   verbatim, edge white space included (column_of trims the span, strips the
+   two quotes and does not trim inside)                                   *)
+(* ------------------------------------------------------------------ *)
+(* what a QUOTED column can carry: non-empty, no quote, no line break; leading
+   and trailing white space allowed *)
+Definition csv_safe_q (v : text) : bool :=
+  match v with
+  | [] => false
+  | _ :: _ =>
+    negb (memb Ascii.eqb dquote v) && negb (memb Ascii.eqb nl v) &&
+    negb (memb Ascii.eqb (ascii_of_nat 13) v)
+  end.
+Definition has_comma (v : text) : bool := memb Ascii.eqb comma v.
+(* what csv_field renders losslessly: it quotes exactly the values containing
+   a comma *)
+Definition csv_safe_r (v : text) : bool := csv_safe v || (csv_safe_q v && has_comma v).
+(* a (format, value) column that reads back as the value: edge white space is
+   kept only when the column is written quoted *)
+Definition col_ok (f : colfmt) (v : text) : bool :=
+  colfmt_ok f && (csv_safe v || (csv_safe_q v && (cf_quote f || has_comma v))).
